@@ -133,6 +133,14 @@ def long_comment_programs(spec, r):
         lines.append(Line("blank", []))
         lines.append(Line("comment", [("/*\n** " + words(r.randint(75, 82)) + "\n** " + words(10) + "\n*/", "comment:multi")]))
         lines.append(Line("blank", []))
+        # something after the end of a multi-line comment on its closing line: a blank, code, text up to the limit
+        lines.append(Line("comment", [("/*\n** " + words(r.randint(10, 40)) + "\n** " + words(12) + "\n*/", "comment:multi"), (" ", "ws:trail")]))
+        lines.append(Line("blank", []))
+        lines.append(Line("global", [("/*\n** " + words(r.randint(10, 40)) + "\n*/", "comment:multi"), SP, ("int", "type"), TAB(1),
+                                     ("g_w", "id:global"), (";", "punct")]))
+        lines.append(Line("blank", []))
+        lines.append(Line("comment", [("/* " + words(20) + "\n" + words(r.randint(74, 79)) + " */", "comment:multi")]))
+        lines.append(Line("blank", []))
         gl = [("static int", "kw"), TAB(1), ("g_v", "id:global"), SP, ("=", "op:assign"), SP, ("0", "const:int"), (";", "punct"), SP]
         lines.append(Line("global", gl + [("// " + words(r.randint(55, 62)), "comment:line")]))
         lines.append(Line("blank", []))
